@@ -42,6 +42,9 @@ type Scen struct {
 	Announce bool             `json:"announce"`           // tips are re-announced while waiting (as the property says)
 	Staged   bool             `json:"staged,omitempty"`   // each connection is made only after the previous one has finished syncing (both ends marked synced)
 	HdrOnly  bool             `json:"hdr_only,omitempty"` // tips are announced by header only (what syncLoop itself relays; v1 tips have no outline anyway)
+	Steps    [][2]int         `json:"steps,omitempty"`    // kind "announce": [miner node, tree block]: the miner adds the block and announces it ONCE
+	Compact  bool             `json:"compact,omitempty"`  // kind "announce": outlines carry hashes only (built against the miner's pool before the block was added)
+	Honour   bool             `json:"honour,omitempty"`   // kind "announce": the peer stores honour bans (a banned honest peer cannot come back)
 	Slot     int              `json:"-"`
 }
 
@@ -954,6 +957,9 @@ func run(c *hx.Ctx) {
 		if s.Kind == "pull" {
 			return runPull(s)
 		}
+		if s.Kind == "announce" {
+			return runAnnounce(s)
+		}
 		return runNet(s)
 	}
 	if c.Replay != "" {
@@ -971,6 +977,7 @@ func run(c *hx.Ctx) {
 	}
 	var scens []Scen
 	scens = append(scens, corpus()...)
+	scens = append(scens, announceScens(c.Thorough)...)
 	nExact, nFinding, nPull := c.Scale(40, 400), c.Scale(14, 120), c.Scale(170, 900)
 	for i := 0; i < nExact; i++ {
 		if s, ok := genScen(c.R.Fork(), i, "exact", c.Thorough); ok {
